@@ -60,9 +60,35 @@ def bpos_literal(fen):
     return f"pos::BPos {{ pcs: [{rows}], white_to_move: {wtm}, rights: {rights}, ep: {ep} }}"
 
 
-DUMP_EXTRA_BODY = "        {\n            let fens: [&str; %d] = [%s];\n            let mut counts: Vec<u64> = Vec::new();\n" \
-    "            for f in fens { let g = crate::chess::game::Game::from_fen(f).unwrap(); counts.push(g.moves().len() as u64); }\n" \
-    "            j(\"C10_LEGAL_COUNTS\", &counts, &mut out);\n        }\n" % (len(CORPUS), ", ".join('"%s"' % f for _, f in CORPUS))
+DUMP_EXTRA_BODY = """        {
+            let fens: [&str; %d] = [%s];
+            let mut caps: Vec<u64> = Vec::new();
+            let mut quiets: Vec<u64> = Vec::new();
+            for f in fens {
+                let g = crate::chess::game::Game::from_fen(f).unwrap();
+                let mut ml = crate::chess::moves::MoveList::new();
+                let mut cache = crate::chess::movegen::MovegenCache::new();
+                crate::chess::movegen::generate_captures(&g, &mut ml, &mut cache);
+                let nc = ml.len();
+                crate::chess::movegen::generate_quiets(&g, &mut ml, &cache);
+                // per position: count, then (raw move, see verdict) pairs
+                caps.push(nc as u64);
+                for i in 0..nc {
+                    let m = ml[i];
+                    caps.push(unsafe { core::mem::transmute::<crate::chess::moves::Move, u16>(m) } as u64);
+                    let v = if m.is_capture() && !m.is_en_passant() { crate::engine::see::see(&g, m, crate::engine::eval::Eval(0)) } else { false };
+                    caps.push(v as u64);
+                }
+                quiets.push((ml.len() - nc) as u64);
+                for i in nc..ml.len() { quiets.push(unsafe { core::mem::transmute::<crate::chess::moves::Move, u16>(ml[i]) } as u64); }
+                // the full generator must agree with the two stages (sanity of the concretisation)
+                let all = g.moves();
+                assert_eq!(all.len(), ml.len());
+            }
+            j("C10_CAPS", &caps, &mut out);
+            j("C10_QUIETS", &quiets, &mut out);
+        }
+""" % (len(CORPUS), ", ".join('"%s"' % f for _, f in CORPUS))
 
 
 META = {
@@ -89,23 +115,42 @@ MANIFEST = {
 QUICK_ALWAYS = ["picker_see_bug", "picker_ep", "promo_caps", "in_check_few", "only_king", "losing_and_winning"]
 
 
-def instance(name, fen, n_legal, loud):
-    hn = f"c10_{'loud' if loud else 'full'}_{name}"
-    attrs = ["#[kani::proof]", f"#[kani::unwind({max(n_legal, 28) + 3})]", "#[kani::stub(std::time::Instant::now, c10::stub_now)]",
-             "#[kani::stub(crate::engine::search::tables::HistoryTable::get, c10::stub_history_get)]"]
-    for a, b in GEOM_STUBS:
-        attrs.append(f"#[kani::stub({a}, {b})]")
-    src = "\n".join(attrs) + f"\npub fn {hn}() {{ let p = {bpos_literal(fen)}; c10::run(&p, {str(loud).lower()}, {n_legal}); }}\n"
+def instance(name, fen, caps, see_ok, quiets, loud, use_hash):
+    hn = f"c10_{'loud' if loud else 'full'}_{'hash' if use_hash else 'nohash'}_{name}"
+    n_legal = len(caps) + len(quiets)
+    attrs = ["#[kani::proof]", f"#[kani::unwind({n_legal + 3})]", "#[kani::stub(std::time::Instant::now, c10::stub_now)]",
+             "#[kani::stub(crate::engine::search::tables::HistoryTable::get, c10::stub_history_get)]",
+             "#[kani::stub(crate::chess::movegen::gen::generate_captures, c10::stub_gen_captures)]",
+             "#[kani::stub(crate::chess::movegen::gen::generate_quiets, c10::stub_gen_quiets)]",
+             "#[kani::stub(crate::engine::see::see, c10::stub_see)]"]
+    arr = lambda xs, f=str: "[" + ", ".join(f(x) for x in xs) + "]"
+    src = "\n".join(attrs) + (f"\npub fn {hn}() {{ let p = {bpos_literal(fen)}; c10::run(&p, {str(loud).lower()}, {str(use_hash).lower()}, "
+                               f"&{arr(caps)}, &{arr(see_ok, lambda b: 'true' if b else 'false')}, &{arr(quiets)}); }}\n")
     return hn, src
 
 
 def jobs(tier, seed):
-    # placeholders; real instances are generated in finalize() once the legal-move counts of this tree are known
+    # placeholders; real instances are generated in finalize() once the move lists of this tree are known
     return []
 
 
+def split_lists(data):
+    caps, quiets = data["C10_CAPS"], data["C10_QUIETS"]
+    out = []
+    ci = qi = 0
+    for _ in CORPUS:
+        nc = caps[ci]; ci += 1
+        c, s = [], []
+        for _ in range(nc):
+            c.append(caps[ci]); s.append(bool(caps[ci + 1])); ci += 2
+        nq = quiets[qi]; qi += 1
+        q = quiets[qi:qi + nq]; qi += nq
+        out.append((c, s, q))
+    return out
+
+
 def finalize(jobs, data, tier, seed):
-    counts = data["C10_LEGAL_COUNTS"]
+    lists = split_lists(data)
     rnd = random.Random(seed)
     names = [n for n, _ in CORPUS]
     if tier == "thorough":
@@ -117,14 +162,15 @@ def finalize(jobs, data, tier, seed):
     if only_names:
         chosen = only_names.split(",")
     js = []
-    for (n, fen), cnt in zip(CORPUS, counts):
+    for (n, fen), (c, s, q) in zip(CORPUS, lists):
         if n not in chosen:
             continue
-        for loud in (False, True):
-            hn, src = instance(n, fen, int(cnt), loud)
-            js.append(Job(hn, f"{'captures-only' if loud else 'full'} picker on '{fen}' ({cnt} legal moves): all ordering-table contents", gen=src,
+        for loud, use_hash in ((False, False), (False, True), (True, False)):
+            hn, src = instance(n, fen, c, s, q, loud, use_hash)
+            js.append(Job(hn, f"{'captures-only' if loud else 'full'} picker{' with hash move' if use_hash else ''} on '{fen}' ({len(c)} captures/promotions + {len(q)} quiets): "
+                              "all ordering-table contents", gen=src,
                           timeout=3000 if tier == "thorough" else 1500, mem_gb=20, checks="functional", witness=False,
-                          params={"fen": fen, "legal_moves": int(cnt), "loud": loud}))
+                          params={"fen": fen, "captures": len(c), "quiets": len(q), "loud": loud, "hash_move": use_hash}))
     return js
 
 
